@@ -612,7 +612,7 @@ pub mod c20_live {
         super::c20::route_table()
             .into_iter()
             .map(|(server, group, method, tpl)| {
-                let mut p = tpl.replace(":query_id", "0").replace("*step", "protocol/alpha");
+                let mut p = tpl.replace(":query_id", "0").replace("*step", "a");
                 let mut body = "-";
                 if tpl.ends_with("/status-match") {
                     p.push_str("?status=Running");
@@ -631,6 +631,9 @@ pub mod c20_live {
             .collect()
     }
 
+    /// a header value that parses neither as HelperIdentity nor as ShardIndex
+    const BAD: &str = "not-a-valid-identity";
+
     pub fn generate(_rng: &mut Rng, thorough: bool) -> Vec<String> {
         let mut v = Vec::new();
         for (server, group, method, path, body) in requests() {
@@ -638,18 +641,18 @@ pub mod c20_live {
             // identity headers: own flavor (valid peer 0 / peer 1 / malformed), other flavor
             let (own, other) = if server == "mpc" { ("h", "s") } else { ("s", "h") };
             let val = |f: &str, k: usize| if f == "h" { ["A", "B", "C"][k] } else { ["0", "1", "2"][k] };
-            let mut hdrs = vec!["none".to_string(), format!("{own}={}", val(own, 1)), format!("{own}={}", val(own, 0)), format!("{own}=zz")];
+            let mut hdrs = vec!["none".to_string(), format!("{own}={}", val(own, 1)), format!("{own}={}", val(own, 0)), format!("{own}={BAD}")];
             hdrs.push(format!("{other}={}", val(other, 1)));
             if thorough {
                 hdrs.push(format!("{own}={}", val(own, 2)));
-                hdrs.push(format!("{other}=zz"));
+                hdrs.push(format!("{other}={BAD}"));
             }
             for bind in ["self", "pre"] {
                 for cert in ["none", "1", "0", "x"] {
                     for h in &hdrs {
                         // quick tier: the full cert x header grid on the protected routes; on the open
                         // routes the corners only
-                        if !thorough && !protected && !(cert == "none" || (cert == "1" && (h == "none" || h.ends_with("=zz")))) {
+                        if !thorough && !protected && !(cert == "none" || (cert == "1" && (h == "none" || h.ends_with(BAD)))) {
                             continue;
                         }
                         v.push(format!("c20.live {server} tls {bind} {group} {method} {path} {cert} {h} {body}"));
